@@ -20,6 +20,9 @@ pub enum Place {
     Handle(u8),
     /// the last at_sim_start stage
     Start,
+    /// the first of the two at_sim_start stages (after the module set up its timers and its task): des still calls
+    /// the remaining stage, which is tolerated; messages and wake-ups must not reach the module any more
+    Start0,
     End,
     /// the j-th tick of the module's joined task (1-based)
     Task(u8),
@@ -133,6 +136,7 @@ impl Module for R {
                     }
                 }));
             }
+            if matches!(self.fault, Some(Fault { place: Place::Start0, .. })) && self.fault_here("at_sim_start (first stage)") {}
         } else if matches!(self.fault, Some(Fault { place: Place::Start, .. })) && self.fault_here("at_sim_start") {
         }
     }
@@ -354,7 +358,9 @@ pub fn run_case(case: &Case) -> Result<(bool, Vec<&'static str>, bool), Failure>
                     at_teardown
                 );
             }
-            let later: Vec<&&Rec> = a[pos + 1..end_pos].iter().filter(|r| r.kind == "msg" || r.kind == "tick" || r.kind == "start").collect();
+            // (the remaining start-up stage of a module that panicked in its first stage is still invoked: not an event it "receives")
+            let start0 = matches!(faults[i].as_ref().map(|f| &f.place), Some(Place::Start0));
+            let later: Vec<&&Rec> = a[pos + 1..end_pos].iter().filter(|r| r.kind == "msg" || r.kind == "tick" || (r.kind == "start" && !start0)).collect();
             vensure!(
                 later.is_empty(),
                 "panicked-module-still-receives-events",
@@ -362,7 +368,7 @@ pub fn run_case(case: &Case) -> Result<(bool, Vec<&'static str>, bool), Failure>
                 a[pos].now,
                 later.iter().map(|r| format!("{}@{}", r.kind, r.now)).collect::<Vec<_>>().join(" ")
             );
-            if matches!(faults[i].as_ref().map(|f| &f.place), Some(Place::Handle(_)) | Some(Place::Start)) {
+            if matches!(faults[i].as_ref().map(|f| &f.place), Some(Place::Handle(_)) | Some(Place::Start) | Some(Place::Start0)) {
                 vensure!(!real.active[i], "panicked-module-still-active", "module {path} panicked in a callback but is_active() is still true at the end");
             }
             continue;
@@ -465,7 +471,7 @@ impl Prop for C13 {
 
     fn rule() -> String {
         "generated fault placements in a ring of 2..6 modules (ping traffic with ttl started by self timers, latency channels, a joined ticker task \
-         per module): 1..3 faults, each = module x {k-th handle_message call (before or after the handler's forwarding), last at_sim_start stage, \
+         per module): 1..3 faults, each = module x {k-th handle_message call (before or after the handler's forwarding), last or first at_sim_start stage, \
          at_sim_end, j-th tick of the joined task} x stereotype {HOST, SUBPROCESS} (optionally switched to that value inside the panicking callback itself), for at_sim_end optionally after the module shut itself down. Oracle: differential against the silent twin (the same model \
          where the module returns at the placement and ignores every later callback): the complete logs of all modules without a callback fault \
          are equal in both runs; a callback-panicked module logs no message / wake-up afterwards and is inactive; run() does not unwind; its \
@@ -492,6 +498,7 @@ impl Prop for C13 {
         let place = prop_oneof![
             5 => (1u8..8).prop_map(Place::Handle),
             1 => Just(Place::Start),
+            1 => Just(Place::Start0),
             1 => Just(Place::End),
             2 => (1u8..6).prop_map(Place::Task),
         ];
